@@ -231,7 +231,9 @@ def parseFault (s : String) : Option Fault :=
   | _ => none
 
 def parseCfg (s : String) : Option Cfg :=
-  match s.toList with
+  -- the first six characters are the model's configuration; what follows are harness modes (`w1` long back-off,
+  -- `b1` requests submitted in bursts, `g1` a broker that grants at most QoS 1)
+  match s.toList.take 6 with
   | ['t', a, 'a', b, 'c', c] => some { respTimeout := a = '1', always := b = '1', connectTimeout := c = '1' }
   -- `w1`: the harness configures a long back-off base so that events can land while the loop waits to redial
   | ['t', a, 'a', b, 'c', c, 'w', _] => some { respTimeout := a = '1', always := b = '1', connectTimeout := c = '1' }
@@ -291,11 +293,11 @@ def joinOr (l : List String) (sep : String) : String := if l.isEmpty then "-" el
 
 def sortStrings (l : List String) : List String := (l.toArray.qsort (· < ·)).toList
 
-def showWorld (w : World) : String :=
+def showWorld (w : World) (grantCap : Nat := 2) : String :=
   let conns := (List.range w.conns.length).map (fun k =>
     let c := getConn w k
     s!"c{k}[" ++ String.intercalate "," (c.pkts.map (fun pw => showPkt pw.1 ++ showWire pw.2)) ++ "]")
-  let bs := sortStrings (w.broker.subs.map (fun e => s!"{toHex e.topic}.{e.qos}"))
+  let bs := sortStrings (w.broker.subs.map (fun e => s!"{toHex e.topic}.{min e.qos grantCap}"))
   let oe := String.ofList (w.onErrors.map (fun e => match e with | .retryable => 'r' | .timeout => 't'))
   let hd := w.handled.map (fun (k, h, m) => s!"{k}:{h}:{m}")
   let ret := if w.connectErr then "err" else match w.connectReturned with | none => "-" | some b => if b then "1" else "0"
@@ -313,6 +315,8 @@ def run (toks : List String) : Option String :=
   match toks with
   | cfgStr :: method :: faults :: evs => do
     let cfg ← parseCfg cfgStr
+    -- `d1`: the scripted dialer ignores its context (like NoContextDialer)
+    let cfg := if (cfgStr.splitOn "d1").length > 1 then { cfg with deafDialer := true } else cfg
     let method ← (if method = "P" then some Method.onPublish else if method = "R" then some Method.onPubrel else none)
     let faults ← (if faults = "-" then some [] else (faults.splitOn ",").mapM parseFault)
     -- one script token = one or more model events (`dialw:N`: the dial succeeds and the write of CONNECT fails —
@@ -344,7 +348,9 @@ def run (toks : List String) : Option String :=
     let ws := (toks.foldl (fun (acc : World × List World) es => let w := applyTok acc.1 es; (w, acc.2 ++ [w])) (w0, [])).2
     let final := ws.getLastD w0
     let settled := final.taskQ.isEmpty && final.retryQ.isEmpty && !final.stuck && (match final.phase with | .up k => (getConn final k).alive | _ => false)
-    pure (showWorld final ++ " || " ++ String.intercalate ";" (ws.map planOf) ++
+    -- `g1`: the scripted broker grants at most QoS 1; the client's requests are unaffected, only the broker's table is capped
+    let cap := if (cfgStr.splitOn "g1").length > 1 then 1 else 2
+    pure (showWorld final cap ++ " || " ++ String.intercalate ";" (ws.map planOf) ++
       s!" # waits={joinOr (final.waits.map toString) ","} phase={showPhase final.phase} stuck={if final.stuck then 1 else 0} settled={if settled then 1 else 0}")
   | _ => none
 
@@ -533,7 +539,7 @@ def handle (toks : List String) : Option String :=
   | "bc" :: rest => BCIO.run rest
   | "ka" :: toks => do
     let evs ← toks.mapM (fun t => match t with
-      | "a" => some KA.PingEvent.pingresp | "A" => some .pingresp | "s" => some .pingresp | "n" => some .timeout | "c" => some .parentCancel
+      | "a" => some KA.PingEvent.pingresp | "A" => some .pingresp | "s" => some .pingresp | "n" => some .timeout | "c" => some .parentCancel | "D" => some .parentCancel
       | "w" => some .writeFail | "e" => some .connEnd | _ => none)
     match KA.keepAlive (evs.map KA.pingOutcome) with
     | .running n => pure s!"pings={n} result=running"
